@@ -867,6 +867,10 @@ case("C10", "C10-D25", "mutant", "historical defect D25 re-introduced: referrerD
 case('C17', "C17-seed10", "mutant", 'seeded (round 6): types/blob BReader.ToTarReader detaches the reader (reader/origRdr set to nil): Close no longer reaches the response, the slot is lost',
      patch="seeded/C17-10/patch.diff", expect=[('C17.R13', 'ToTarReader', "source field origRdr cleared")])
 
+# C09.R14 / D26
+case("C09", "C09-D26", "mutant", "historical defect D26 re-introduced: a Docker import by a name that is not in manifest.json warns, returns, and the caller pushes the empty manifest",
+     patch="selftest/regress/D26.diff", expect=[("C09.R14", "imageImportDockerAddLayerHandlers", "selection that finds nothing")])
+
 def main():
     bad = 0
     for pid, cases in CASES.items():
